@@ -40,6 +40,8 @@ func fmtR(m *p1x.Msg) string {
 		st = "err-" + m.Err
 	} else if !m.Complete {
 		st = "incomplete"
+	} else if m.Stray > 0 {
+		st = "stray-crlf-before-status-line"
 	}
 	fr := m.Framing
 	if fr == "" {
